@@ -1185,39 +1185,3 @@ Proof. vm_compute. reflexivity. Qed.
 End Examples.
 
 (* ---------- axioms ---------- *)
-Print Assumptions read_str_part_spec.
-Print Assumptions part_lit_plain.
-Print Assumptions part_lit_break.
-Print Assumptions backslash_quote_ends_part.
-Print Assumptions read_string'_spec.
-Print Assumptions nt_core_string.
-Print Assumptions nt_core_typed_string.
-Print Assumptions next_string.
-Print Assumptions next_typed_string.
-Print Assumptions lex_text_stmt.
-Print Assumptions text_value_string.
-Print Assumptions text_value_typed.
-Print Assumptions text_value_format.
-Print Assumptions text_value_inv.
-Print Assumptions pory_text_inv.
-Print Assumptions parse_text_inv.
-Print Assumptions parse_text_plain.
-Print Assumptions parse_text_scoped.
-Print Assumptions parse_program_text_stmt.
-Print Assumptions terminated_lines.
-Print Assumptions lit_parts_lines.
-Print Assumptions lit_parts_plain.
-Print Assumptions literal_directive_lines.
-Print Assumptions last_line_terminated.
-Print Assumptions compile_text_stmt.
-Print Assumptions program_texts_terminated.
-Print Assumptions program_texts_terminated_strict.
-Print Assumptions program_text_blocks.
-Print Assumptions Examples.ex_two_parts.
-Print Assumptions Examples.ex_two_parts_text.
-Print Assumptions Examples.ex_ascii.
-Print Assumptions Examples.ex_backslash_quote.
-Print Assumptions Examples.ex_raw_newline.
-Print Assumptions Examples.ex_empty_first_part.
-Print Assumptions Examples.ex_poryswitch_unterminated.
-Print Assumptions Examples.ex_escaped_backslash_zero.
